@@ -353,6 +353,15 @@ def _write_result_batch(
     return 0
 
 
+class _MissingMethodError(RpcError):
+    """A request stream whose batch carries no ``vgi_rpc.method`` key.
+
+    Distinguished from other protocol errors so the socket serve loop can
+    recognise the input stream of a stream call it rejected before the
+    stream opened (see ``_ConnectionState``).
+    """
+
+
 def _read_request(
     reader_stream: IOBase | pa.NativeFile,
     ipc_validation: IpcValidation = IpcValidation.FULL,
@@ -426,7 +435,7 @@ def _read_request(
         )
     method_name_bytes = custom_metadata.get(RPC_METHOD_KEY) if custom_metadata else None
     if method_name_bytes is None:
-        raise RpcError(
+        raise _MissingMethodError(
             "ProtocolError",
             "Missing 'vgi_rpc.method' in request batch custom_metadata. "
             "Each request batch must carry a 'vgi_rpc.method' key in its Arrow IPC custom_metadata "
